@@ -45,6 +45,20 @@ func (g *Gen) huge() int {
 	return 0
 }
 
+// vast draws a list length beyond 4096 (the kind of threshold above which an implementation
+// switches to a parallel or chunked path), very rarely; only operations whose cost is linear
+// in the list length use it.
+func (g *Gen) vast() int {
+	den := 160
+	if g.Deep {
+		den = 50
+	}
+	if g.R.Chance(1, den) {
+		return 4100 + g.R.Intn(2500)
+	}
+	return 0
+}
+
 // cap is the bound on the size of an expansion.
 func (g *Gen) cap(c int64) int64 {
 	if g.Deep {
